@@ -50,7 +50,8 @@ Have(e) == l <= Len(Trace) /\ Ev.run = run /\ Ev.ev = e
 
 Consume == l' = l + 1 /\ run' = run /\ (Diag => PrintT(<<"VERIF-HW", run, l>>))
 
-PRet(cls) == IF cls \in {"nil", "ctx"} THEN Ret(cls, "") ELSE Ret("err", cls)
+\* PoolReturn: cls = nil | ctx (the bare ctx.Err() of the pool's own select) | err with the cause class in c
+PRet(e) == IF e.cls = "err" THEN Ret("err", e.c) ELSE Ret(e.cls, "")
 
 (* ---- driver events ---- *)
 TCancel == Have("Cancel") /\ UserCancel /\ Consume /\ UNCHANGED aux
@@ -79,10 +80,10 @@ TEnd ==
 TPoolReturn ==
   /\ Have("PoolReturn") /\ ~retLogged[Ev.p]
   /\ retLogged' = [retLogged EXCEPT ![Ev.p] = TRUE]
-  /\ \/ /\ poolPc[Ev.p] \in {"ret", "report", "done"} /\ poolRet[Ev.p] = PRet(Ev.cls)
+  /\ \/ /\ poolPc[Ev.p] \in {"ret", "report", "done"} /\ poolRet[Ev.p] = PRet(Ev)
         /\ UNCHANGED vars
      \/ \* Run received the error and logged its return before the await goroutine logged ErrForwarded
-        /\ poolPc[Ev.p] = "select" /\ aw[Ev.p].pc = "onerr" /\ aw[Ev.p].pend = Ev.cls
+        /\ poolPc[Ev.p] = "select" /\ aw[Ev.p].pc = "onerr" /\ Ev.cls = "err" /\ aw[Ev.p].pend = Ev.c
         /\ ForwardErr(Ev.p)
   /\ Consume /\ UNCHANGED <<fwdLogged, wdLogged, runLogged>>
 
@@ -142,7 +143,7 @@ TSilent ==
      \/ \E p \in Pools :
           \/ PoolStep(p) \/ ProvCloseQ(p)
           \/ StartFirstNone(p) \/ StartFirstGo(p) \/ StartLoop(p) \/ StartRet(p)
-          \/ CheckAllNot(p) \/ RunCancelDo(p) \/ StartCancelDo(p) \/ AwaitExit(p)
+          \/ CheckAllNot(p) \/ CtxProp(p) \/ AwaitExit(p)
           \/ \E i \in Insts : InstSilent(p, i) \/ (~PP(p).closable /\ InstFinish(p, i))
   /\ UNCHANGED <<l, run, aux>>
 
